@@ -6,7 +6,9 @@
    Normalisation done by the translator (so that these do not change a program):
      * local variables are renamed x0, x1, ... in order of first binding; the handler's own
        argument is ERest, any further parameter (stor's `mode`) is EParam;
-     * `a, b = e1, e2` is two lets; a local bound exactly once to a string literal is inlined
+     * `a, b = e1, e2` is two lets; a local bound exactly once (at the top level of the body) to a
+       string literal, or to a modelled expression that reads neither the connection nor a re-bound
+       local, is inlined at its uses
        (`code, info = "250", ""; connection.response(code, info)` = `connection.response("250", "")`);
      * message texts (second argument of connection.response when it is a side-effect-free
        expression over constants, the argument and un-modelled locals) are EOpaque; lets of locals
